@@ -11,264 +11,10 @@
 // With the environment variable C16_VERBOSE=1 the full probe text is printed instead of its hash.
 // The python side knows the lineage of every object and compares its hash with (a) the hash the lineage's root had right
 // after construction and (b) for deterministic constructions the hash of the same parameters in an otherwise empty process.
-#include <iostream>
-#include <sstream>
-#include <string>
-#include <vector>
-#include <deque>
-#include <map>
-#include <cstdio>
-#include <cstdlib>
-#include <cstring>
+#include "c16_probes.h"
 #include <unistd.h>
 #include <sys/wait.h>
 #include <signal.h>
-#include "givinteger.h"
-#include "givrational.h"
-#include "modular.h"
-#include "modular-balanced.h"
-#include "modular-log16.h"
-#include "montgomery.h"
-#include "gfq.h"
-#include "gfqext.h"
-#include "extension.h"
-#include "givpoly1.h"
-#include "givpoly1factor.h"
-#include "givintrns.h"
-#include "givrns.h"
-#include "givrandom.h"
-
-using namespace Givaro;
-typedef std::ostringstream OS;
-
-static const long VALS[] = {0, 1, 2, 5, -7, 123456789L, 65521L, -1};
-static const int NV = sizeof(VALS) / sizeof(VALS[0]);
-
-static uint64_t fnv(const std::string& s) { uint64_t h = 1469598103934665603ULL; for (size_t i = 0; i < s.size(); ++i) { h ^= (unsigned char)s[i]; h *= 1099511628211ULL; } return h; }
-
-// the probe of one object is printed part by part ("name:" before the part is computed, its hash after), so that a crash inside
-// a part is attributed to that part
-struct Sink {
-    OS o; FILE* out; bool verbose, first, open;
-    Sink(FILE* f, bool v) : out(f), verbose(v), first(true), open(false) {}
-    void close() { if (open) { if (verbose) fprintf(out, "[%s]", o.str().c_str()); else fprintf(out, "%016llx", (unsigned long long)fnv(o.str())); o.str(""); open = false; fflush(out); } }
-    void part(const char* n) { close(); fprintf(out, "%s%s:", first ? "" : ",", n); fflush(out); first = false; open = true; }
-};
-
-// ------------------------------------------------------------------ probes
-template <class F, class E> static void show(OS& o, const F& f, const E& e) { Integer i; f.convert(i, e); o << i << ","; }
-template <class T> static Integer toI(const T& x) { Integer r; Caster(r, x); return r; }
-
-// the ring interface shared by Modular<*>, ModularBalanced<*>, Montgomery<*>, Modular<Log16>, GFqDom, GFqExtFast, GFqExt
-template <class F> static void probe_ring(const F& f, OS& o, bool dbl = true) {
-    typedef typename F::Element E;
-    Integer ch = toI(f.characteristic()), ca = toI(f.cardinality());
-    o << "ch=" << ch << " card=" << ca << " z="; show(o, f, f.zero); o << " o="; show(o, f, f.one); o << " m="; show(o, f, f.mOne);
-    o << " t=" << f.isZero(f.zero) << f.isOne(f.one) << f.isMOne(f.mOne) << f.isZero(f.one) << f.areEqual(f.one, f.mOne);
-    E a, b, c, r; f.init(a); f.init(b); f.init(c); f.init(r);
-    for (int i = 0; i < NV; ++i) {
-        f.init(a, Integer(VALS[i])); o << " i" << i << "="; show(o, f, a);
-        f.init(r, (int64_t)VALS[i]); show(o, f, r);
-        if (VALS[i] >= 0) { f.init(r, (uint64_t)VALS[i]); show(o, f, r); }
-        if (dbl) { f.init(r, (double)VALS[i]); show(o, f, r); }
-        int64_t l; f.convert(l, a); o << l << ","; double d; f.convert(d, a); o << (long long)d << ",";
-        o << f.isZero(a) << f.isOne(a) << f.isMOne(a) << f.isUnit(a);
-        for (int j = 0; j < NV; j += 2) {
-            f.init(b, Integer(VALS[j])); f.init(c, Integer(VALS[(i + j + 1) % NV]));
-            o << " ";
-            f.add(r, a, b); show(o, f, r); f.sub(r, a, b); show(o, f, r); f.mul(r, a, b); show(o, f, r); f.neg(r, a); show(o, f, r);
-            if (!f.isZero(b) && f.isUnit(b)) { f.div(r, a, b); show(o, f, r); f.inv(r, b); show(o, f, r);
-                                               f.assign(r, a); f.divin(r, b); show(o, f, r); f.assign(r, b); f.invin(r); show(o, f, r); }
-            f.assign(r, a); f.addin(r, b); show(o, f, r); f.assign(r, a); f.subin(r, b); show(o, f, r);
-            f.assign(r, a); f.mulin(r, b); show(o, f, r); f.assign(r, a); f.negin(r); show(o, f, r);
-            f.axpy(r, a, b, c); show(o, f, r); f.axmy(r, a, b, c); show(o, f, r); f.maxpy(r, a, b, c); show(o, f, r);
-            f.assign(r, c); f.axpyin(r, a, b); show(o, f, r); f.assign(r, c); f.axmyin(r, a, b); show(o, f, r);
-            f.assign(r, c); f.maxpyin(r, a, b); show(o, f, r);
-            o << f.areEqual(a, b);
-        }
-    }
-}
-
-template <class F> static void probe_gfq(const F& f, Sink& s, bool dbl = true) {
-    typedef typename F::Element E;
-    s.part("ring"); probe_ring(f, s.o, dbl);
-    OS& o = s.o;
-    s.part("misc");
-    o << " e=" << f.exponent() << " g="; show(o, f, f.generator()); o << " s=" << f.size() << " r=" << f.residu();
-    o << " ir=" << f.irreducible();
-    // element from a polynomial over the prime field (GFqDom::init(Rep&, Vector)); coefficients are prime-field elements,
-    // whose representation is an index below p
-    s.part("vec");
-    long p = (long)f.characteristic();
-    for (int k = 0; k < 3; ++k) {
-        std::vector<E> v; v.push_back((E)((2 + k) % p));
-        if (f.exponent() > 1) { v.push_back((E)(1 % p)); if (k == 2) { v.push_back((E)(1 % p)); v.push_back((E)(2 % p)); } }   // (e = 1: _irred is not a polynomial)
-        E r; f.init(r, v); o << " v" << k << "="; show(o, f, r);
-    }
-}
-template <class F> static void probe_gfqext(const F& f, Sink& s, bool dbl) {
-    typedef typename F::Element E;
-    // GFqExtFast::init(double) requires 0 <= d < _MODOUT (GFqExt reduces first)
-    s.part("dbl");
-    OS& o = s.o;
-    long lim = (long)f.cardinality() - 1;
-    for (int k = 0; k < 6; ++k) { E r; double d = (double)((3 * k + 1) % lim); f.init(r, d); o << " d" << k << "="; show(o, f, r); double back; f.convert(back, r); o << (long long)back; }
-    probe_gfq(f, s, dbl);
-}
-
-template <class F> static void probe_extension(const F& f, OS& o) {
-    typedef typename F::Element E;
-    Integer ch = toI(f.characteristic()), ca = toI(f.cardinality());
-    o << "ch=" << ch << " card=" << ca << " e=" << f.exponent() << " z="; f.write(o, f.zero); o << " o="; f.write(o, f.one); o << " m="; f.write(o, f.mOne);
-    o << " ir="; f.write(o, f.irreducible());
-    E a, b, c, r;
-    for (int i = 0; i < NV; i += 1) {
-        f.init(a, Integer(VALS[i] < 0 ? -VALS[i] * 31 : VALS[i] * 977 + 3)); f.init(b, Integer(VALS[(i + 3) % NV] < 0 ? 4242 : VALS[(i + 3) % NV] + 11));
-        f.init(c, Integer(1000 + i));
-        o << " |"; f.write(o, a); o << ";"; f.mul(r, a, b); f.write(o, r); o << ";"; f.add(r, a, b); f.write(o, r); o << ";"; f.sub(r, a, b); f.write(o, r);
-        if (!f.isZero(b)) { o << ";"; f.inv(r, b); f.write(o, r); o << ";"; f.div(r, a, b); f.write(o, r); }
-        o << ";"; f.axpy(r, a, b, c); f.write(o, r); o << ";"; f.neg(r, a); f.write(o, r);
-        if (!f.isZero(a)) { Integer back; f.convert(back, a); o << ";" << back; }
-        o << ";" << f.isZero(a) << f.isOne(a) << f.areEqual(a, b);
-    }
-}
-
-template <class PD> static void probe_poly(const PD& pd, OS& o, bool factor) {
-    typedef typename PD::Element P;
-    P x, c3, c5, a, b, q, r, g, t;
-    pd.init(x, Degree(1)); pd.init(c3, Degree(0), 3); pd.init(c5, Degree(0), 5);
-    // a = x^3 + 3x + 5, b = x^2 + 5
-    pd.init(a, Degree(3)); pd.mul(t, x, c3); pd.addin(a, t); pd.addin(a, c5);
-    pd.init(b, Degree(2)); pd.addin(b, c5);
-    o << "a="; pd.write(o, a); o << " b="; pd.write(o, b);
-    pd.mul(t, a, b); o << " ab="; pd.write(o, t); pd.add(t, a, b); o << " a+b="; pd.write(o, t); pd.sub(t, a, b); o << " a-b="; pd.write(o, t);
-    pd.divmod(q, r, a, b); o << " q="; pd.write(o, q); o << " r="; pd.write(o, r);
-    pd.gcd(g, a, b); o << " g="; pd.write(o, g);
-    pd.mul(t, a, a); pd.mulin(t, b); pd.mod(r, t, a); o << " m="; pd.write(o, r);
-    Degree d; pd.degree(d, t); o << " deg=" << d.value();
-    o << " z="; pd.write(o, pd.zero); o << " o="; pd.write(o, pd.one); o << " t=" << pd.isZero(pd.zero) << pd.isOne(pd.one) << pd.areEqual(a, b);
-    typename PD::Type_t lc; pd.leadcoef(lc, a); o << " lc="; pd.getdomain().write(o, lc);
-    pd.diff(t, a); o << " da="; pd.write(o, t);
-    o << " ch=" << toI(pd.getdomain().characteristic());
-}
-template <class PD> static void probe_factor(const PD& pd, OS& o) {
-    probe_poly(pd, o, true);
-    typedef typename PD::Element P;
-    P x, c, a;
-    pd.init(x, Degree(1));
-    for (int k = 1; k <= 4; ++k) { pd.init(a, Degree(2)); pd.init(c, Degree(0), k); pd.addin(a, c); o << " irr" << k << "=" << pd.is_irreducible(a); }
-    for (int k = 1; k <= 3; ++k) { pd.init(a, Degree(3)); pd.addin(a, x); pd.init(c, Degree(0), k); pd.addin(a, c); o << " irc" << k << "=" << pd.is_irreducible(a); }
-}
-
-template <class R> static void probe_intrns(R& rns, OS& o) {
-    typename R::array res, mix;
-    static const char* XS[] = {"0", "1", "52", "1000", "123456789012", "-5"};
-    o << "n=" << rns.NumOfPrimes() << " prod=" << rns.product();
-    for (int i = 0; i < 6; ++i) {
-        Integer x(XS[i]), y, z;
-        rns.RingToRns(res, x); o << " |";
-        for (size_t k = 0; k < res.size(); ++k) o << res[k] << ",";
-        rns.RnsToRing(y, res); o << "->" << y;
-        rns.RnsToMixedRadix(mix, res); rns.MixedRadixToRing(z, mix); o << "/" << z;
-    }
-    o << " ck="; for (size_t k = 1; k < rns.Reciprocals().size(); ++k) o << rns.Reciprocals()[k] << ",";
-    o << " p="; for (size_t k = 0; k < rns.Primes().size(); ++k) o << rns.Primes()[k] << ","; o << rns.ith(0) << "," << rns.reciprocal(1);
-}
-template <class R> static void probe_rns(R& rns, OS& o) {
-    typename R::array res;
-    static const char* XS[] = {"0", "1", "52", "1000", "123456789", "100000"};
-    o << "n=" << rns.size();
-    for (int i = 0; i < 6; ++i) {
-        Integer x(XS[i]), y;
-        rns.RingToRns(res, x); o << " |";
-        for (size_t k = 0; k < res.size(); ++k) o << (long long)res[k] << ",";
-        rns.RnsToRing(y, res); o << "->" << y;
-    }
-    o << " ck="; for (size_t k = 1; k < rns.Reciprocals().size(); ++k) o << (long long)rns.Reciprocals()[k] << ",";
-    o << " p="; for (size_t k = 0; k < rns.Primes().size(); ++k) o << (long long)rns.Primes()[k].characteristic() << ","; o << (long long)rns.ith(0).characteristic() << "," << (long long)rns.reciprocal(1);
-}
-
-// ------------------------------------------------------------------ classes: construction from a parameter set + probe
-struct Any {
-    virtual ~Any() {}
-    virtual Any* copy() const = 0;
-    virtual void assign(const Any& src) = 0;
-    virtual void probe(Sink& s) = 0;
-};
-template <class D, void (*PROBE)(const D&, Sink&)> struct Box : Any {
-    D d;
-    Box(const D& x) : d(x) {}
-    Any* copy() const { return new Box(d); }                         // D's copy constructor
-    void assign(const Any& src) { d = static_cast<const Box&>(src).d; }   // D's operator=
-    void probe(Sink& s) { PROBE(d, s); }
-};
-template <class D, void (*PROBE)(D&, Sink&)> struct BoxM : Any {           // probes that call non-const members
-    D d;
-    BoxM(const D& x) : d(x) {}
-    Any* copy() const { return new BoxM(d); }
-    void assign(const Any& src) { d = static_cast<const BoxM&>(src).d; }
-    void probe(Sink& s) { PROBE(d, s); }
-};
-
-static const char* BIGP[] = {"1000000000000000000000007", "170141183460469231731687303715884105727", "18446744073709551629"};
-
-template <class F> static void pr_ring(const F& f, Sink& s) { s.part("ring"); probe_ring(f, s.o); }
-template <class F> static void pr_gfq(const F& f, Sink& s) { probe_gfq(f, s); }
-template <class F> static void pr_gfqext(const F& f, Sink& s) { probe_gfqext(f, s, true); }
-template <class F> static void pr_gfqextfast(const F& f, Sink& s) { probe_gfqext(f, s, false); }
-template <class F> static void pr_ext(const F& f, Sink& s) { s.part("ext"); probe_extension(f, s.o); }
-template <class F> static void pr_poly(const F& f, Sink& s) { s.part("poly"); probe_poly(f, s.o, false); }
-template <class F> static void pr_fact(const F& f, Sink& s) { s.part("poly"); probe_factor(f, s.o); }
-template <class F> static void pr_intrns(F& f, Sink& s) { s.part("rns"); probe_intrns(f, s.o); }
-template <class F> static void pr_rns(F& f, Sink& s) { s.part("rns"); probe_rns(f, s.o); }
-
-#define RINGBOX(T) Box<T, pr_ring<T> >
-
-static Any* make(const std::string& cls, int P) {
-    static const long SMALL[] = {7, 101, 46337, 3};          // valid for every word ring (46337^2 < 2^31)
-    static const long ODD[] = {7, 101, 40503, 3};
-    static const long L16[] = {7, 101, 16381, 3};
-    static const long GP[] = {3, 5, 2, 7}, GE[] = {2, 2, 4, 1};
-    P &= 3;
-    if (cls == "Modular<int32_t>") return new RINGBOX(Modular<int32_t>)(Modular<int32_t>((int32_t)SMALL[P]));
-    if (cls == "Modular<uint32_t>") return new RINGBOX(Modular<uint32_t>)(Modular<uint32_t>((uint32_t)SMALL[P]));
-    if (cls == "Modular<int64_t>") return new RINGBOX(Modular<int64_t>)(Modular<int64_t>((int64_t)(P == 2 ? 2147483629L : SMALL[P])));
-    if (cls == "Modular<uint64_t>") return new RINGBOX(Modular<uint64_t>)(Modular<uint64_t>((uint64_t)(P == 2 ? 4294967291UL : SMALL[P])));
-    if (cls == "Modular<float>") return new RINGBOX(Modular<float>)(Modular<float>((float)(P == 2 ? 2039 : SMALL[P])));
-    if (cls == "Modular<double>") return new RINGBOX(Modular<double>)(Modular<double>((double)(P == 2 ? 67108859 : SMALL[P])));
-    if (cls == "Modular<Integer>") return new RINGBOX(Modular<Integer>)(Modular<Integer>(P < 3 ? Integer(BIGP[P]) : Integer(101)));
-    if (cls == "Modular<ruint<7>>") { typedef Modular<RecInt::ruint<7> > M; RecInt::ruint<7> p; Integer ip(P < 3 ? BIGP[P == 1 ? 2 : P] : "101"); Caster(p, ip); return new RINGBOX(M)(M(p)); }
-    if (cls == "ModularBalanced<int32_t>") return new RINGBOX(ModularBalanced<int32_t>)(ModularBalanced<int32_t>((int32_t)ODD[P]));
-    if (cls == "ModularBalanced<int64_t>") return new RINGBOX(ModularBalanced<int64_t>)(ModularBalanced<int64_t>((int64_t)(P == 2 ? 2147483629L : ODD[P])));
-    if (cls == "ModularBalanced<float>") return new RINGBOX(ModularBalanced<float>)(ModularBalanced<float>((float)(P == 2 ? 2039 : ODD[P])));
-    if (cls == "ModularBalanced<double>") return new RINGBOX(ModularBalanced<double>)(ModularBalanced<double>((double)(P == 2 ? 67108859 : ODD[P])));
-    if (cls == "Montgomery<int32_t>") return new RINGBOX(Montgomery<int32_t>)(Montgomery<int32_t>((int32_t)ODD[P]));
-    if (cls == "Montgomery<ruint<7>>") { typedef Montgomery<RecInt::ruint<7> > M; RecInt::ruint<7> p; Integer ip(P < 3 ? BIGP[P == 1 ? 2 : P] : "101"); Caster(p, ip); return new RINGBOX(M)(M(p)); }
-    if (cls == "Modular<Log16>") return new RINGBOX(Modular<Log16>)(Modular<Log16>((Modular<Log16>::Residu_t)L16[P]));
-    if (cls == "GFqDom<int64_t>") { typedef GFqDom<int64_t> G; return new Box<G, pr_gfq<G> >(G((uint64_t)GP[P], (uint64_t)GE[P])); }
-    if (cls == "GFqDom<int32_t>") { typedef GFqDom<int32_t> G; return new Box<G, pr_gfq<G> >(G((uint32_t)GP[P], (uint32_t)GE[P])); }
-    if (cls == "GFqExtFast<int64_t>") { typedef GFqExtFast<int64_t> G; return new Box<G, pr_gfqextfast<G> >(G((uint64_t)GP[P], (uint64_t)(GE[P] == 1 ? 2 : GE[P]))); }
-    if (cls == "GFqExt<int64_t>") { typedef GFqExt<int64_t> G; return new Box<G, pr_gfqext<G> >(G((uint64_t)GP[P], (uint64_t)(GE[P] == 1 ? 2 : GE[P]))); }
-    if (cls == "Extension<GFqDom<int64_t>>") { typedef Extension<GFqDom<int64_t> > X; GFqDom<int64_t> B((uint64_t)GP[P], 1); return new Box<X, pr_ext<X> >(X(B, (uint64_t)(2 + (P & 1)))); }
-    if (cls == "Poly1Dom<Modular<double>,Dense>") { typedef Poly1Dom<Modular<double>, Dense> PD; Modular<double> B((double)SMALL[P]); return new Box<PD, pr_poly<PD> >(PD(B, Indeter(P & 1 ? "Y" : "X"))); }
-    if (cls == "Poly1Dom<GFqDom<int64_t>,Dense>") { typedef Poly1Dom<GFqDom<int64_t>, Dense> PD; GFqDom<int64_t> B((uint64_t)GP[P], (uint64_t)GE[P]); return new Box<PD, pr_poly<PD> >(PD(B, Indeter(P & 1 ? "Y" : "X"))); }
-    if (cls == "Poly1FactorDom<Modular<double>,Dense>") { typedef Poly1FactorDom<Modular<double>, Dense> PD; Modular<double> B((double)SMALL[P]); return new Box<PD, pr_fact<PD> >(PD(B, Indeter(P & 1 ? "Y" : "X"))); }
-    if (cls == "Poly1FactorDom<GFqDom<int64_t>,Dense>") { typedef Poly1FactorDom<GFqDom<int64_t>, Dense> PD; GFqDom<int64_t> B((uint64_t)GP[P], (uint64_t)GE[P]); return new Box<PD, pr_fact<PD> >(PD(B, Indeter(P & 1 ? "Y" : "X"))); }
-    if (cls == "IntRNSsystem<vector>") {
-        typedef IntRNSsystem<std::vector, std::allocator> R; std::vector<Integer> pr;
-        static const long PS[4][5] = {{3, 5, 7, 0, 0}, {11, 13, 17, 19, 0}, {1000003, 1000033, 999983, 65521, 2}, {2, 3, 0, 0, 0}};
-        for (int k = 0; k < 5 && PS[P][k]; ++k) pr.push_back(Integer(PS[P][k]));
-        return new BoxM<R, pr_intrns<R> >(R(pr));
-    }
-    if (cls == "RNSsystem<Integer,Modular<double>>") {
-        typedef RNSsystem<Integer, Modular<double> > R;
-        static const long PS[4][5] = {{3, 5, 7, 0, 0}, {11, 13, 17, 19, 0}, {1009, 1013, 65521, 2, 0}, {2, 3, 0, 0, 0}};
-        int n = 0; while (n < 5 && PS[P][n]) ++n;
-        R::domains dm(n); for (int k = 0; k < n; ++k) dm[k] = Modular<double>((double)PS[P][k]);
-        return new BoxM<R, pr_rns<R> >(R(dm));
-    }
-    return 0;
-}
 
 static void run_history(const std::string& line, bool verbose, FILE* out) {
     std::istringstream is(line);
@@ -282,7 +28,7 @@ static void run_history(const std::string& line, bool verbose, FILE* out) {
         if (k == 'c') obj[n] = make(cls, m);
         else if (k == 'k') obj[n] = obj[m]->copy();
         else if (k == 'a') obj[n]->assign(*obj[m]);
-        else if (k == 'u') { FILE* nul = fopen("/dev/null", "w"); Sink sk(nul, false); obj[n]->probe(sk); sk.close(); fclose(nul); }
+        else if (k == 'u') { }          // one more round of probes (below): matters for caches / statics
         else if (k == 'd') { delete obj[n]; obj[n] = 0; }
         fprintf(out, " | %s", ev.c_str());
         for (int i = 0; i < 8; ++i) if (obj[i]) {
